@@ -880,6 +880,9 @@ func ruleC02(c *Ctx) {
 				if ct != nil && !ct.TreeMutator {
 					continue
 				}
+				if sn := shortName(e.Callee); strings.HasPrefix(sn, "(*etree.") && etreeReadOnly[sn[strings.LastIndex(sn, ".")+1:]] {
+					continue // Copy, Root, FindElement, WriteTo…: the tree is only read
+				}
 				for i, a := range e.Args {
 					if a == nil || !mayPointTo(a.Type()) {
 						continue
